@@ -9,3 +9,13 @@ Definition sig_close (m : res (list Q)) (py : option (list Q)) : bool :=
   end.
 Definition cases_cached (d : doc) (qs : list (Q * option (list elem))) : list bool :=
   map (fun q => outcome_close (isd_cached d (fst q)) (snd q)) qs.
+
+(* S of C14 on the implementation's snapshots: cached and uncached render identically *)
+From TT Require Import Spec.RenderSpec.
+Definition render_same (a b : option (list elem)) : bool :=
+  match a, b with
+  | Some x, Some y => isd_close (render x) (render y)
+  | _, _ => true     (* a snapshot that raises is judged by C18 (and C01's recorded finding), not here *)
+  end.
+Definition cases_render (qs : list (option (list elem) * option (list elem))) : list bool :=
+  map (fun q => render_same (fst q) (snd q)) qs.
